@@ -171,7 +171,7 @@ func VerifZlWrite() {
 	levels := [6]int{0, 1, 2, 6, -1, -2}
 	level := levels[verifrt.Pick("level", 6)]
 	useDict := verifrt.Pick("dict", 2) == 1
-	pat := verifrt.Pick("ops", 4)
+	pat := verifrt.Pick("ops", 6)
 	var dict []byte
 	if useDict {
 		dict = vzDict
@@ -216,6 +216,22 @@ func VerifZlWrite() {
 		do(0, 1, 0, 0)
 		do(1, 0, 0, len(payload))
 		do(2, 2, 0, 0)
+	case 4, 5: // abandon a stream (written, optionally flushed), Reset, then Write, Close
+		do(0, 0, 0, h)
+		if pat == 5 {
+			do(1, 1, 0, 0)
+		}
+		fs.b, ss.b = nil, nil
+		fw.Reset(&fs)
+		sw.Reset(&ss)
+		do(2, 0, h, len(payload))
+		do(3, 2, 0, 0)
+		if level == 0 || useDict {
+			verifrt.Assert(vhEqual(fs.b, ss.b), "C06:reset-output-identical")
+		}
+		verifrt.Assert(len(fs.b) >= 4 && len(ss.b) >= 4 && vhEqual(fs.b[len(fs.b)-4:], ss.b[len(ss.b)-4:]), "C06:reset-trailer-bytes")
+		verifrt.Cover("written")
+		return
 	}
 	for i := 0; i < 4; i++ {
 		verifrt.Assert((fe[i] == nil) == (se[i] == nil), "C06:op-error")
